@@ -116,7 +116,7 @@ func VerifC01Pipeline() {
 	for i := range pool {
 		pool[i] = db.MessageIDPair{InternalID: imap.NewInternalMessageID(), RemoteID: imap.MessageID("r")}
 	}
-	inBox := make([]bool, n+2)   // authoritative membership (after all queued responders)
+	inBox := make([]bool, n+2) // authoritative membership (after all queued responders)
 	mirror := &verifMirror{}
 	prev := uint32(0)
 	for i := 0; i < n; i++ {
@@ -260,7 +260,6 @@ func VerifC01Pipeline() {
 	}
 	vsymAssert(st.snap.len() == cnt, "view size equals mailbox size after NOOP")
 }
-
 
 // ExpungeIssuedVerif reports whether an expunge responder is queued (what Mailbox.ExpungeIssued looks at).
 func (state *State) ExpungeIssuedVerif() bool {
